@@ -26,8 +26,10 @@ def run_e1(prop, tier, driver, plan, nops, rule, assumptions, design_ref, extra_
     samples = []
     total_runs = 0
     harness_problems = []
+    scale = float(os.environ.get("VERIF_SCALE", "1"))
     for si, st in enumerate(plan):
         v = st["variant"]
+        st = dict(st, runs=max(1, int(st["runs"] * scale)))
         # disjoint seed ranges per stage; VERIF_SEED shifts the whole exploration
         seed0 = seed * 1000003 * 1000 + si * 100000007
         shards = C.shard_runs(bins[v], st["runs"], seed0, list(st.get("args", [])) + ["--hashfile", os.path.join(wd, "hashes_%d_" % si)], wd,
